@@ -57,7 +57,10 @@ Inductive stmt :=
 
 (** `fn`, `async fn`, and a `fn` whose last expression is `Box::pin(async move {..})` / `async move {..}`
     (the async-trait >= 0.1.44 shape recognised by `AsyncInfo::from_fn`). *)
-Inductive fkind := KSync | KAsync | KBoxed.
+(** [KHelper]: the async-trait <= 0.1.43 / hand-written shape `fn f(..) -> Pin<Box<dyn Future>> { async fn helper(..) {..};
+    Box::pin(helper(..)) }` (`AsyncKind::Function`): the attribute instruments the *inner* `async fn` (which receives every
+    argument, so the call behaves like an `async fn`), but the span is still named after the annotated function. *)
+Inductive fkind := KSync | KAsync | KBoxed | KHelper.
 
 Record func := mkFunc { f_kind : fkind; f_params : list param; f_body : stmt; f_tail : expr }.
 
@@ -413,7 +416,7 @@ Definition top_mentions (top : ttop) : list N :=
 Definition run (c : collector) (args : N -> N) (f : func) (top : ttop) : list entry * result :=
   match f_kind f with
   | KSync => run_sync c args f top
-  | KAsync => let '(l, r) := run_future c args f top (all_owned f) in (ECreated :: l, r)
+  | KAsync | KHelper => let '(l, r) := run_future c args f top (all_owned f) in (ECreated :: l, r)
   | KBoxed =>
       (* the wrapper's `async move` block captures what its text mentions; the rest dies when the wrapper returns *)
       let m := mentions f ++ top_mentions top in
@@ -707,3 +710,14 @@ Definition pat_rule (k : patkind) : prule :=
   end.
 Definition rtype_of (table : list String.string) (t : tyspell) (k : patkind) : rtype :=
   match pat_rule k with PRKeep => ty_rtype table t | _ => RDebug end.
+
+(** * Which function the default span name is taken from
+
+    [a_name a = None] / [sp_name = None] denotes the name of the function that carries the attribute, for every kind.
+    The macro reaches gen_block through four call sites; at [CSAsyncFunction] gen_function is handed the inner helper,
+    so the name must be passed in from outside.  The translator reads which name each site passes (Gen_attr.gen_name_source). *)
+Inductive namesrc := NSAnnotated | NSHelper.
+Inductive callsite := CSSpeculative | CSPrecise | CSAsyncFunction | CSAsyncBlock.
+Definition site_of_kind (k : fkind) : callsite :=
+  match k with KSync | KAsync => CSPrecise | KBoxed => CSAsyncBlock | KHelper => CSAsyncFunction end.
+Definition default_name_source (k : fkind) : namesrc := NSAnnotated.
